@@ -32,6 +32,8 @@ CHECKS = {
          "TLC model check of Dhcp4Opts.tla + trace validation of real accessor calls"),
  "C16": ("6", "Dhcp6Build.tla: relay encapsulation/decapsulation and the advertise/request/reply/relay-reply builders as operators over the Dhcp6Wire value trees; a relay-chain machine is model-checked (decap(encap(m)) = m, hop count, innermost message at any depth also after Dec6(Enc6(.)), relay-reply mirrors every level); every recorded builder/relay call on generated chains of depth 1..16 and inner messages of every type is validated by TLC",
          "TLC model check of the relay-chain machine + trace validation of real builder calls"),
+ "C15": ("6", "Dhcp4Build.tla: the DHCPv4 builders as ApplyAll(caller modifiers, ApplyAll(defaults, Base(xid))) over abstract packets; model-checked for reply/request correlation, renew/release rules and 'last modifier prevails' over small inputs x modifier lists; every recorded builder call (7 builders x generated/decoded inputs x 0..4 modifiers from 22 exported With* functions, modifier slice reused across calls) must equal Build(builder, input, modifiers)",
+         "TLC model check of Dhcp4Build.tla + trace validation of real builder calls"),
 }
 
 def main():
